@@ -81,7 +81,10 @@ def keepHolderReset : List (String × List String) :=
 /-- CodeHolder: `reinit()` — documented to keep environment, cpu features, base address, logger, error handler and the
     attached emitters ("It won't detach Logger, ErrorHandler, nor attached emitters") -/
 def keepHolderReinit : List (String × List String) :=
-  [ ("CodeHolder", ["_environment"]), ("CodeHolder", ["_cpu_features"]), ("CodeHolder", ["_base_address"]),
+  [ ("CodeHolder", ["_environment"]), ("CodeHolder", ["_cpu_features"]),
+    -- the parameters of `init()` persist; `_base_address` itself is NOT kept: `relocate_to_base` overwrites it, so reinit
+    -- restores it from `_init_base_address` (fixes/C16-3.patch)
+    ("CodeHolder", ["_init_base_address"]),
     ("CodeHolder", ["_logger"]), ("CodeHolder", ["_error_handler"]),
     -- emitters stay attached by design (each gets on_reinit, see `emitter_reinit_covers_all_fields`)
     ("CodeHolder", ["_attached_first"]), ("CodeHolder", ["_attached_last"]),
@@ -298,7 +301,7 @@ theorem records_present :
 
 set_option maxRecDepth 100000 in
 theorem leaf_counts :
-    holderLeaves.length = 41 ∧ sectionLeaves.length = 13 ∧ rapassLeaves.length = 40 ∧ arenaLeaves.length = 11 ∧
+    holderLeaves.length = 42 ∧ sectionLeaves.length = 13 ∧ rapassLeaves.length = 40 ∧ arenaLeaves.length = 11 ∧
     (emitterClasses.map fun c => (leaves recordMap 4 c).length) = [24, 48, 52, 24, 48, 52] := by
   decide +kernel
 
@@ -316,7 +319,7 @@ set_option maxRecDepth 100000 in
 theorem analysis_discriminates :
     uncovered resetMap depth pathHolderReset holderLeaves [] ≠ [] ∧
     uncovered resetMap depth pathArenaReset arenaLeaves [] ≠ [] ∧
-    (uncovered resetMap depth [⟨"CodeHolder_init_section_storage", "self", false⟩] holderLeaves []).length = 41 ∧
+    (uncovered resetMap depth [⟨"CodeHolder_init_section_storage", "self", false⟩] holderLeaves []).length = 42 ∧
     definitelyWritten resetMap depth (pathEmitterReinit "x86::Compiler") ⟨[("BaseCompiler", "_const_pools")], 2⟩ = true ∧
     definitelyWritten resetMap depth [⟨"BaseCompiler_clear", "self", false⟩] ⟨[("BaseCompiler", "_const_pools")], 3⟩ = false ∧
     -- a write under one arm of an `if` does not count, a write under both arms does
